@@ -730,6 +730,8 @@ func headerDecodeChecksFiltered(c *Ctx, rule string, onlyC01 bool, filter func(n
 			spec: abs.Cat(abs.Pack(abs.F("ts", 23, 0)), abs.Pack(abs.F("len", 23, 0)), abs.Pack(abs.F("type", 7, 0)), abs.LE("sid", 4)),
 			fields: map[string]Want{"header.Timestamp": {Atom: "ts", Width: 24}, "header.payloadLength": {Atom: "len", Width: 24}, "header.MessageType": {Atom: "type", Width: 8},
 				"header.streamID": {Atom: "sid", Width: 32}, "message.messageHeader.Timestamp": {Atom: "ts", Width: 24}, "message.messageHeader.payloadLength": {Atom: "len", Width: 24},
+				// RTMP 5.3.1.2.4: a type-3 chunk that starts a new message right after a type-0 one uses that timestamp as its delta
+				"header.timestampDelta": {Atom: "ts", Width: 24},
 				"consumed": {Const: cst(11)}, "count": {Const: cst(1)}}},
 		hdrCase{name: "type0,extended-timestamp", format: 0, fresh: true,
 			dom:  with(old(), map[string]Dom{"ext": {W: 31, Hi: -1}, "len": {W: 24, Hi: -1}, "type": {W: 8, Hi: -1}, "sid": {W: 32, Hi: -1}, "chunk.count": {W: 32, Hi: -1}}),
